@@ -526,6 +526,10 @@ func (g *useGen) uses(t hs.Type, e string, ind int) {
 		}
 	case hs.KOpt:
 		g.emit(ind, "println("+e+".is_some());")
+		if t.Elem.K == hs.KNull {
+			// binding the null result of a builtin call is a VM matter of its own (finding C12-008)
+			return
+		}
 		u := g.fresh("u")
 		g.emit(ind, "if "+e+".is_some() {")
 		g.emit(ind+1, "let "+u+" = "+e+".unwrap();")
@@ -572,7 +576,9 @@ func useOut(t hs.Type, v hs.Value, out *[]string) {
 			return
 		}
 		p("true")
-		useOut(*t.Elem, o.Inner, out)
+		if t.Elem.K != hs.KNull {
+			useOut(*t.Elem, o.Inner, out)
+		}
 	}
 }
 
